@@ -382,7 +382,7 @@ def scaled_sources(work, depth):
     return out
 
 
-def native_replay(cases, pkgdir='.', timeout=600, extra_files=None, scale_depth=None):
+def native_replay(cases, pkgdir='.', timeout=600, extra_files=None, scale_depth=None, race=False):
     """cases: list of (name, script ints, go call expression). Runs them against the
     real build of /repo's current tree. Returns {name: ('PASS'|'FAIL'|'PANIC'|'ASSUME-FAILED', detail)}"""
     work = tempfile.mkdtemp(prefix='verif-replay-')
@@ -406,8 +406,12 @@ def native_replay(cases, pkgdir='.', timeout=600, extra_files=None, scale_depth=
             json.dump({'Replace': ov}, f)
         cmd = ['go', 'test', '-tags', 'verif verifnative', '-overlay', ovf, '-vet=off', '-count=1', '-v',
                '-run', '^TestVerifReplay$', './' + pkgdir if pkgdir != '.' else '.']
+        if race:
+            cmd.insert(2, '-race')
         r = subprocess.run(cmd, cwd=REPO, env=GOENV, capture_output=True, text=True, timeout=timeout)
         res = {}
+        if race and 'WARNING: DATA RACE' in (r.stdout + r.stderr):
+            res['__race__'] = ('RACE', (r.stdout + r.stderr).split('WARNING: DATA RACE', 1)[1][:600])
         for line in r.stdout.splitlines():
             if line.startswith('VERIF-REPLAY '):
                 parts = line.split(' ', 3)
